@@ -288,6 +288,9 @@ impl Driver {
         }
         line["ready_after"] = json!(self.ready());
         writeln!(out, "{}", line).unwrap();
+        // every step reaches the file at once: if a later call of the server never returns,
+        // the history up to it can be recovered
+        out.flush().unwrap();
         true
     }
 }
